@@ -16,7 +16,7 @@ ASSUMPTIONS = ['the tokio runtime (select! on a cancellation token) is judged by
 
 def run(ctx):
     rng = ctx.rng
-    n = 1500 if ctx.tier == 'thorough' else 48
+    n = 1500 if ctx.tier == 'thorough' else 48 * ctx.scale
     lines = []
     if ctx.replay:
         lines, n = [ctx.replay['case']['line']], 0
